@@ -13,15 +13,21 @@ var vxBoom = errors.New("boom")
 
 // vxFailReader delivers d in chunks and fails with a non-EOF error once failAt bytes were delivered.
 type vxFailReader struct {
-	d      []byte
-	pos    int
-	failAt int
-	chunk  int // max bytes per Read (0: as many as fit)
+	d        []byte
+	pos      int
+	failAt   int
+	chunk    int  // max bytes per Read (0: as many as fit)
+	withData bool // the failing call also delivers the last bytes (allowed by io.Reader)
 }
 
 func (r *vxFailReader) Read(p []byte) (int, error) {
 	if r.pos >= r.failAt {
 		return 0, vxBoom
+	}
+	if r.withData && r.failAt-r.pos <= len(p) && (r.chunk == 0 || r.failAt-r.pos <= r.chunk) {
+		n := copy(p, r.d[r.pos:r.failAt])
+		r.pos += n
+		return n, vxBoom
 	}
 	n := r.failAt - r.pos
 	if len(p) < n {
@@ -44,7 +50,7 @@ func VX_C15_readcsv() {
 	if vx.HasParam("types") {
 		opts = append(opts, csv.Types(map[string]string{"a": vx.ParamStr("types"), "b": vx.ParamStr("types")}))
 	}
-	f := ReadCSV(&vxFailReader{d: doc, failAt: failAt, chunk: chunk}, opts...)
+	f := ReadCSV(&vxFailReader{d: doc, failAt: failAt, chunk: chunk, withData: vx.Bool()}, opts...)
 	vx.Check(f.Err != nil, "a failing reader is reported through Err")
 	vx.Check(f.Len() == -1, "no rows are exposed after a read failure")
 	vx.Reach("end")
